@@ -1,1 +1,188 @@
-/-! Property theorems for C02 (statements + proofs by reference to `Proof/`). Not built yet. -/
+import GraafVerif.Proof.QueryALSeq
+import GraafVerif.Proof.QueryMX
+import GraafVerif.Proof.QueryAM
+import GraafVerif.Proof.QueryEL
+import GraafVerif.Proof.QueryWL
+/-!
+# C02 — every read-only query returns its textbook definition over `(V, A, w)`
+
+Only statements and proofs by reference.  Vocabulary:
+
+* `Query.Digraph` = `(V, A, w)` (`Spec/Query.lean`), `X.abs r` the digraph a representation
+  denotes (`V = vertices r`, `A u v = hasArc r u v`, `Spec/QueryAbs.lean`);
+* `Query.Spec.*` the textbook value of each query, defined from `(V, A, w)` alone;
+* `X.core r : Core` the model of the queries coded per representation, `Core.*` the model of
+  the blanket impls (`Model/Query.lean`), `none` = the call panics;
+* `CoreCorrect q G` / `SeqCorrect q G` / `DerivedCorrect q G` : every core / sequence /
+  derived query of `q` returns `some (Spec.… G …)` on every vertex of `G` (total queries: on
+  every argument).
+
+"Queries never change the digraph" holds by construction of the model (queries are pure
+functions of the representation); it is checked ON THE CODE by the correspondence run
+(`clone` before, `==` after, output `unchanged`).
+-/
+namespace GraafVerif.C02
+open GraafVerif.Repr GraafVerif.Query
+
+/-- Everything C02 says about one representation value `r` with query model `q` and abstract
+digraph `G`. -/
+structure ReprStatement (q : Core) (G : Digraph) : Prop where
+  valid : G.Valid
+  core : CoreCorrect q G
+  seq : SeqCorrect q G
+  derived : DerivedCorrect q G
+
+/-- **Full statement of C02.**  For every well-formed value of each of the five
+representations (every order, every arc set, `AdjacencyMap` with arbitrary ids) every query
+equals its definition, for every thread count; the weighted queries of
+`AdjacencyListWeighted`; and the total queries answer "absent" outside `V`
+(for `has_arc / has_edge / has_walk / arc_weight` this is `Valid` + the equalities above,
+see `totality`; for `remove_arc` it is stated per representation). -/
+def Statement : Prop :=
+  (∀ d : AdjList, d.WF → ReprStatement (AL.core d) (AL.abs d)) ∧
+  (∀ d : AdjMap, d.WF → ReprStatement (AM.core d) (AM.abs d)) ∧
+  (∀ d : AdjMatrix, d.WF → ReprStatement (MX.core d) (MX.abs d)) ∧
+  (∀ d : EdgeList, d.WF → ReprStatement (EL.core d) (EL.abs d)) ∧
+  (∀ d : AdjListW, d.WF → ReprStatement (WL.core d) (WL.abs d) ∧
+      (∀ u v, d.arcWeight u v = Spec.arcWeight (WL.abs d) u v) ∧
+      (∀ u ∈ (WL.abs d).verts, WL.outNeighborsWeighted d u = some (Spec.outNeighborsWeighted (WL.abs d) u))) ∧
+  -- remove_arc is total: an absent arc (in particular an id outside V) answers false, nothing changes
+  (∀ (d : AdjList) u v, d.hasArc u v = false → d.removeArc u v = (d, false)) ∧
+  (∀ (d : AdjMap) u v, d.hasArc u v = false → d.removeArc u v = (d, false)) ∧
+  (∀ (d : AdjMatrix) u v, d.hasArc u v = false → d.removeArc u v = (d, false)) ∧
+  (∀ (d : EdgeList) u v, d.hasArc u v = false → d.removeArc u v = (d, false)) ∧
+  (∀ (d : AdjListW) u v, d.hasArc u v = false → d.removeArc u v = (d, false))
+
+/-! ## What the `Spec` values mean (the definitions are the textbook ones) -/
+
+/-- `out_neighbors`: exactly the out-neighbours, ascending, no repeats. -/
+theorem spec_outNeighbors {G : Digraph} (hG : G.Valid) (u : Nat) :
+    IsAscEnum (Spec.outNeighbors G u) (fun v => G.adj u v = true) := outNeighbors_isAscEnum hG u
+theorem spec_inNeighbors {G : Digraph} (hG : G.Valid) (v : Nat) :
+    IsAscEnum (Spec.inNeighbors G v) (fun u => G.adj u v = true) := inNeighbors_isAscEnum hG v
+/-- `out_neighbors_weighted`: the pairs `(v, w u v)` over the out-neighbours. -/
+theorem spec_outNeighborsWeighted {G : Digraph} (hG : G.Valid) (u v : Nat) (w : Int) :
+    (v, w) ∈ Spec.outNeighborsWeighted G u ↔ G.wt u v = some w := outNeighborsWeighted_mem hG u v w
+/-- `has_walk`: at least two vertices and every consecutive pair is an arc. -/
+theorem spec_hasWalk (G : Digraph) (w : List Nat) : Spec.hasWalk G w = true ↔ IsWalkSeq G w := hasWalk_iff G w
+/-- `sinks` / `sources`: the vertices without out-arcs / in-arcs, ascending. -/
+theorem spec_sinks {G : Digraph} (hG : G.Valid) :
+    IsAscEnum (Spec.sinks G) (fun u => u ∈ G.verts ∧ ∀ v, G.adj u v = false) := sinks_isAscEnum hG
+theorem spec_sources {G : Digraph} (hG : G.Valid) :
+    IsAscEnum (Spec.sources G) (fun v => v ∈ G.verts ∧ ∀ u, G.adj u v = false) := sources_isAscEnum hG
+/-- `size = |A|`: `Spec.arcs` enumerates `A`. -/
+theorem spec_arcs {G : Digraph} (hG : G.Valid) (u v : Nat) : (u, v) ∈ Spec.arcs G ↔ G.adj u v = true := mem_arcs hG u v
+/-- `max_*` / `min_*`: the maximum / minimum of the sequence, `0` for none. -/
+theorem spec_max (l : List Nat) : IsMaxOf (Spec.maxL l) l := isMaxOf_maxL l
+theorem spec_min (l : List Nat) : IsMinOf (Spec.minL l) l := isMinOf_minL l
+
+/-- Totality: with an id outside `V` the total queries answer "absent". -/
+theorem totality {G : Digraph} (hG : G.Valid) {u v : Nat} (h : u ∉ G.verts ∨ v ∉ G.verts) :
+    Spec.hasArc G u v = false ∧ Spec.hasEdge G u v = false ∧ Spec.arcWeight G u v = none :=
+  ⟨hasArc_outside hG h, hasEdge_outside hG h, arcWeight_outside hG h⟩
+theorem totality_walk {G : Digraph} (hG : G.Valid) {w : List Nat} {x : Nat} (hx : x ∈ w) (hxV : x ∉ G.verts) :
+    Spec.hasWalk G w = false := hasWalk_outside hG hx hxV
+
+/-! ## The blanket impls, once for every representation [P0] -/
+theorem derived_correct {q : Core} {G : Digraph} (h : CoreCorrect q G) : DerivedCorrect q G :=
+  Query.derived_correct h
+
+/-- The two coded forms of `has_walk`. -/
+theorem hasWalkPtr_correct (G : Digraph) (has : Nat → Nat → Bool) (h : ∀ u v, has u v = G.adj u v) (w : List Nat) :
+    hasWalkPtr has w = true ↔ IsWalkSeq G w := by rw [hasWalkPtr_eq G has h, hasWalk_iff]
+theorem hasWalkZip_correct (G : Digraph) (has : Nat → Nat → Bool) (h : ∀ u v, has u v = G.adj u v) (w : List Nat) :
+    hasWalkZip has w = true ↔ IsWalkSeq G w := by rw [hasWalkZip_eq G has h, hasWalk_iff]
+
+/-! ## AdjacencyList [P0] (+ the threaded `degree_sequence` for every thread count [P1]) -/
+theorem al_correct (d : AdjList) (h : d.WF) : ReprStatement (AL.core d) (AL.abs d) :=
+  ⟨AL.abs_valid h, AL.core_correct h, AL.seq_correct h, Query.derived_correct (AL.core_correct h)⟩
+
+/-- `∀ t ≥ 1`: the `t`-thread `degree_sequence` is the sequential definition. -/
+theorem al_degreeSequence_par (d : AdjList) (h : d.WF) (t : Nat) (ht : 0 < t) :
+    AL.degreeSequence d t = Spec.degreeSequence (AL.abs d) := AL.degreeSequence_par h t ht
+
+/-- documented panics: exactly outside `V` -/
+theorem al_panics (d : AdjList) (u : Nat) (hu : ¬ u < d.order) :
+    (AL.core d).outNeighbors u = none ∧ (AL.core d).indegree u = none ∧ (AL.core d).outdegree u = none ∧
+      (AL.core d).isSink u = none := AL.panics_outside hu
+
+theorem al_removeArc_total (d : AdjList) (u v : Nat) (h : d.hasArc u v = false) : d.removeArc u v = (d, false) :=
+  AL.removeArc_absent d h
+
+/-- Non-vacuity: a well-formed 3-vertex list with a rejected-free history; its queries. -/
+example : (⟨[[1, 2], [2], []]⟩ : AdjList).WF := by
+  refine ⟨by decide, ?_⟩
+  intro u row h
+  match u, h with
+  | 0, h => cases h; simp [SortedS, AdjList.order]
+  | 1, h => cases h; simp [SortedS, AdjList.order]
+  | 2, h => cases h; simp [SortedS, AdjList.order]
+example : AL.degreeSequence ⟨[[1, 2], [2], []]⟩ 2 = [2, 2, 2] := by decide
+example : (AL.core ⟨[[1, 2], [2], []]⟩).sinks = some [2] := by decide
+
+/-! ## AdjacencyMatrix [P0] -/
+theorem mx_correct (d : AdjMatrix) (h : d.WF) : ReprStatement (MX.core d) (MX.abs d) :=
+  ⟨MX.abs_valid h, MX.core_correct h, MX.seq_correct h, Query.derived_correct (MX.core_correct h)⟩
+
+/-- The matrix arc iterator (set cells below `order²`, as `(cell / order, cell % order)`) yields
+`A` in lexicographic order. -/
+theorem mx_arcs (d : AdjMatrix) (h : d.WF) : d.arcs = Spec.arcs (MX.abs d) := MX.arcs_spec h
+
+theorem mx_panics (d : AdjMatrix) (u : Nat) (hu : ¬ u < d.order) :
+    (MX.core d).outNeighbors u = none ∧ (MX.core d).indegree u = none ∧ (MX.core d).outdegree u = none ∧
+      (MX.core d).isSink u = none := MX.panics_outside hu
+
+theorem mx_removeArc_outside (d : AdjMatrix) (u v : Nat) (h : ¬ (u < d.order ∧ v < d.order)) :
+    d.removeArc u v = (d, false) := MX.removeArc_outside d h
+
+/-- Non-vacuity: order 3 (`order² = 9`, not a multiple of 64), arcs `0→1, 2→0`. -/
+example : (MX.core ⟨[0b001000010#64], 3⟩).indegree 0 = some 1 := by decide
+example : (MX.core ⟨[0b001000010#64], 3⟩).outNeighbors 0 = some [1] := by decide
+
+theorem mx_removeArc_total (d : AdjMatrix) (u v : Nat) (h : d.hasArc u v = false) : d.removeArc u v = (d, false) :=
+  MX.removeArc_absent d h
+
+/-! ## AdjacencyMap — arbitrary (non-contiguous) vertex ids [P1] -/
+theorem am_correct (d : AdjMap) (h : d.WF) : ReprStatement (AM.core d) (AM.abs d) :=
+  ⟨AM.abs_valid h, AM.core_correct h, AM.seq_correct h, Query.derived_correct (AM.core_correct h)⟩
+theorem am_panics (d : AdjMap) (u : Nat) (hu : u ∉ (AM.abs d).verts) :
+    (AM.core d).outNeighbors u = none ∧ (AM.core d).indegree u = none ∧ (AM.core d).outdegree u = none ∧
+      (AM.core d).isSink u = none := AM.panics_outside hu
+theorem am_removeArc_total (d : AdjMap) (u v : Nat) (h : d.hasArc u v = false) : d.removeArc u v = (d, false) :=
+  AM.removeArc_absent d h
+/-- Non-vacuity: vertex ids `{2, 7, 1000}`, arcs `2→7, 1000→2`. -/
+example : (AM.core ⟨[(2, [7]), (7, []), (1000, [2])]⟩).inNeighbors 2 = [1000] := by decide
+example : (AM.core ⟨[(2, [7]), (7, []), (1000, [2])]⟩).sinks = some [7] := by decide
+example : (AM.core ⟨[(2, [7]), (7, []), (1000, [2])]⟩).indegree 3 = none := by decide
+
+/-! ## EdgeList [P1] -/
+theorem el_correct (d : EdgeList) (h : d.WF) : ReprStatement (EL.core d) (EL.abs d) :=
+  ⟨EL.abs_valid h, EL.core_correct h, EL.seq_correct h, Query.derived_correct (EL.core_correct h)⟩
+theorem el_panics (d : EdgeList) (u : Nat) (hu : ¬ u < d.order) :
+    (EL.core d).outNeighbors u = none ∧ (EL.core d).indegree u = none ∧ (EL.core d).outdegree u = none ∧
+      (EL.core d).isSink u = none := EL.panics_outside hu
+theorem el_removeArc_total (d : EdgeList) (u v : Nat) (h : d.hasArc u v = false) : d.removeArc u v = (d, false) :=
+  EL.removeArc_absent d h
+example : (EL.core ⟨[(0, 1), (0, 2), (2, 0)], 3⟩).outNeighbors 0 = some [1, 2] := by decide
+
+/-! ## AdjacencyListWeighted [P1] — with `arc_weight` and `out_neighbors_weighted` -/
+theorem wl_correct (d : AdjListW) (h : d.WF) : ReprStatement (WL.core d) (WL.abs d) ∧
+    (∀ u v, d.arcWeight u v = Spec.arcWeight (WL.abs d) u v) ∧
+    (∀ u ∈ (WL.abs d).verts, WL.outNeighborsWeighted d u = some (Spec.outNeighborsWeighted (WL.abs d) u)) :=
+  ⟨⟨WL.abs_valid h, WL.core_correct h, WL.seq_correct h, Query.derived_correct (WL.core_correct h)⟩,
+   fun _ _ => rfl,
+   fun u hu => WL.outNeighborsWeighted_spec h (by simpa [WL.abs, AdjListW.vertices] using hu)⟩
+theorem wl_panics (d : AdjListW) (u : Nat) (hu : ¬ u < d.order) :
+    (WL.core d).outNeighbors u = none ∧ (WL.core d).indegree u = none ∧ (WL.core d).outdegree u = none ∧
+      (WL.core d).isSink u = none := WL.panics_outside hu
+theorem wl_removeArc_total (d : AdjListW) (u v : Nat) (h : d.hasArc u v = false) : d.removeArc u v = (d, false) :=
+  WL.removeArc_absent d h
+example : WL.outNeighborsWeighted ⟨[[(1, -3), (2, 5)], [], [(0, 7)]]⟩ 0 = some [(1, -3), (2, 5)] := by decide
+example : (⟨[[(1, -3), (2, 5)], [], [(0, 7)]]⟩ : AdjListW).arcWeight 2 0 = some 7 := by decide
+
+/-- **C02, full statement.** -/
+theorem statement : Statement :=
+  ⟨al_correct, am_correct, mx_correct, el_correct, wl_correct,
+   al_removeArc_total, am_removeArc_total, mx_removeArc_total, el_removeArc_total, wl_removeArc_total⟩
+
+end GraafVerif.C02
